@@ -616,6 +616,12 @@ func vfC13Run(run *vfkit.Run, cs *vfC13Case) {
 		return
 	}
 	time.Sleep(120 * time.Millisecond)
+	if cs.SM && len(cs.Faults) == 1 && !permanent {
+		// anything armed during the negotiation with a ConnectTimeout fuse (1 s here) - a deadline left on the socket, a
+		// delayed close - comes due now, on a session that nobody touches: it must survive (pacing, not a verdict)
+		time.Sleep(1200 * time.Millisecond)
+		run.Count("resumed_sessions_left_alone_for_a_connect_timeout", 1)
+	}
 	extra := 0
 	for {
 		select {
